@@ -126,7 +126,9 @@ let () =
        (* the property only distinguishes values from errors, the correspondence also the error kind *)
        let cls x = if String.length x >= 3 && String.sub x 0 3 = "err" then "err" else x in
        (* C11 speaks of strings over the base64 alphabet; a foreign byte is C06's clause (stream decode_faults) *)
-       let corr = (m = impl) and prop = (if sp = "err InvalidBase64" then None else Some (cls sp = cls impl)) in
+       (* ... except for the table probes (ids t<byte>): which bytes are digits at all is C11's own clause ("all 256 byte values for the alphabet table") *)
+       let probe = String.length id > 1 && id.[0] = 't' in
+       let corr = (m = impl) and prop = (if sp = "err InvalidBase64" && not probe then None else Some (cls sp = cls impl)) in
        count corr prop; verdict id corr prop (Printf.sprintf "model=%s\tspec=%s" m sp)
      | [id; "vlq_sweep"; from; upto; bad; first] ->
        (* impl-only exhaustive round trip over a chunk of integers (a test; the theorem is C11_decode_encode) *)
@@ -547,7 +549,12 @@ let () =
             | _ :: _ :: got :: _, Some ws -> String.concat "," (List.map (fun w -> if w.[0] = '#' then "=" ^ hex_of_string (String.sub w 1 (String.length w - 1)) else w) ws) = got
             | _ :: _ :: got :: _, None -> got = ""
             | _ -> false) else true) in
-       let entry_differs = String.length impl >= 19 && String.sub impl 0 19 = "entry-points-differ" in
+       (* C02: the debug id is the one under "debug_id" when that key is present, else the one under "debugId", else none -- whatever its value *)
+       let dbg_ok = (if is_ok && impl <> "ok other-kind" then
+           (match String.rindex_opt impl '#' with
+            | Some k -> String.sub impl (k + 1) (String.length impl - k - 1) = dbg (if d1 <> "-" then Some (z_of_string d1) else if d2 <> "-" then Some (z_of_string d2) else None)
+            | None -> false) else true) in
+       let entry_differs = (String.length impl >= 19 && String.sub impl 0 19 = "entry-points-differ") || not dbg_ok in
        let prop = if impl = "panic" || entry_differs || not idem_ok || not ordered || not join_ok || not tokens_ok || not names_ok then Some false else if rmi_ok then Some (is_ok = spec_ok) else None in
        let _ = fault in
        (* sort_unstable_by_key may permute tokens that share a generated position when the segments were not already in order:
@@ -790,7 +797,7 @@ let () =
            let got_contents = split_list contents' in
            let contents_ok = (Hashtbl.length contents = 0 && contents' = "") || (got_contents = want_contents) || (List.for_all (fun c -> c = "-") want_contents && List.for_all (fun c -> c = "-") got_contents) in
            let want_ign = List.sort_uniq compare !ign and got_ign = List.sort_uniq compare (List.map int_of_string (split_list ign')) in
-           let want_dbg = (match !dbg with None -> "-" | Some k -> Printf.sprintf "00000000-0000-0000-0000-0000000000%02x" k) in
+           let want_dbg = (match !dbg with None -> "-" | Some k -> Printf.sprintf "00000000-0000-0000-0000-0000000000%02x%s" k (if k > 10 then "-2a" else "")) in   (* ids above 10 are set with an appendix *)
            Some (!ok && f' = opt_hex' !file && srcs' = want_srcs && names' = want_names && contents_ok && want_ign = got_ign
                  && impl_root = opt_hex' !root && impl_dbg = want_dbg && got_views = want_views)
          | _ -> Some false) in
